@@ -13,13 +13,19 @@ Post-repair behaviour (fix commits c31bf93, 5244afd, 57755ab, 935916e, 32522c5 o
 * mutators (one function per Python method, `Store → … → Store × Out`): `addNode addNodes addEdge addEdges removeEdge
   removeEdges removeNode removeNodes setWeight setNodeMeta setEdgeMeta setHMeta attrH attrNode attrEdge delAttrNode
   delAttrEdge clear`; `applyOp : Store → SOp → Store × Out` dispatches.
-* `State` = slots of stores, `Op` = `new | on slot sop | copy i j | query slot q`, `step : State → Op → State × Out`,
-  `run`.
-* queries: `answer : Store → Query → Ans` (one constructor per public getter) built from `getEdges numEdges getWeights
-  incident neighbors degree degreeSeq isolated timesFor minTime maxTime snapshots aggregate …`.
-* `records s : List (Key × (Int × Meta))` = the content as the map the property speaks of (creation order).
+* `records s : List (Key × (Int × Meta))` = the content as the map the property speaks of (creation order);
+  `edgeKeys s`, `weightOfKey s k`, `metaOfKey s k`.
+* `View` = everything a getter reads (`view s`); every query is a function of the view: `V.getEdges V.numEdges
+  V.getWeights V.incident V.neighbors V.degree V.degreeSeq V.degreeDist V.isolated V.isIsolated V.sizes V.uniform
+  V.timesFor V.minTime V.maxTime V.snapshots V.aggregate`, and `V.answer : View → Query → Ans` (one `Query` constructor
+  per public getter).  Store-level shorthands: `window getEdges numEdges getWeights incident neighbors degree timesFor
+  minTime maxTime snapshots aggregate answer`.
 * `HSpec` = spec-level `Hypergraph` (what `aggregate` / `subhypergraph` return), with `HSpec.addEdge`/`HSpec.addNode`
-  mirroring `Hypergraph.add_edge`/`add_node`.
+  mirroring `Hypergraph.add_edge`/`add_node`; `snapshotsOf` / `aggregateOf` are the loops of the two methods as
+  functions of the record listing and the weight / metadata lookups.
+* `State` = slots of stores, `Op` = `new | on slot sop | copy i j | query slot q`, `step : State → Op → State × Res`, `run`.
+* `Model/C03Spec.lean`: the abstract map `Spec`, `abs : Store → Spec`, `Spec.applyOp`, `Spec.view`, `Spec.answer`;
+  proved facts in `Proofs/C03*.lean`: `Inv` (invariant), `reachable_inv`, `applyOp_abs` (refinement), `view_abs`.
 -/
 namespace C03
 
@@ -65,6 +71,7 @@ structure Store where
   nmeta : List (Node × Meta) := []
   nextId : Nat := 0
   hmeta : Meta := []
+  deriving DecidableEq
 
 /-- reserved metadata tokens: key 100 = "weighted", 101 = "type"; values 90 = False, 91 = True, 92 = "TemporalHypergraph" -/
 def Store.new (w : Bool) : Store := { weighted := w, hmeta := [(100, if w then 91 else 90), (101, 92)] }
@@ -143,16 +150,26 @@ def hasDup : List (List Nat) → Bool
   | [] => false
   | a :: t => t.contains a || hasDup t
 
-/-- `add_edges(edge_list, time_list, weights, metadata)` - the whole batch is validated first -/
+/-- with `weights`: no repeated tuple in `edge_list`, as many weights as edges -/
+def wsOk (raws : List (List Nat)) : Option (List Int) → Bool
+  | some l => !hasDup raws && l.length == raws.length
+  | none => true
+
+def mdsOk (raws : List (List Nat)) : Option (List Meta) → Bool
+  | some l => l.length == raws.length
+  | none => true
+
+/-- the validation `add_edges` performs before the first mutation -/
+def addEdgesOk (raws : List (List Nat)) (ts : List TimeArg) (ws : Option (List Int)) (mds : Option (List Meta)) : Bool :=
+  raws.length == ts.length && wsOk raws ws && mdsOk raws mds && ts.all (fun t => (validTime t).isSome)
+
+/-- `add_edges(edge_list, time_list, weights, metadata)` - the whole batch is validated first; giving weights makes
+the hypergraph weighted -/
 def addEdges (s : Store) (raws : List (List Nat)) (ts : List TimeArg) (ws : Option (List Int))
     (mds : Option (List Meta)) : Store × Out :=
-  if raws.length != ts.length then (s, .rej)
-  else if (match ws with | some l => hasDup raws || l.length != raws.length | none => false) then (s, .rej)
-  else if (match mds with | some l => l.length != raws.length | none => false) then (s, .rej)
-  else if !(ts.all (fun t => (validTime t).isSome)) then (s, .rej)
-  else
-    let s1 := if ws.isSome then { s with weighted := true } else s
-    (addEdgesLoop s1 ws mds 0 (raws.zip ts), .ok)
+  if addEdgesOk raws ts ws mds then
+    (addEdgesLoop (if ws.isSome then { s with weighted := true } else s) ws mds 0 (raws.zip ts), .ok)
+  else (s, .rej)
 
 /-! ## remove_edge -/
 
@@ -314,13 +331,16 @@ def applyOp (s : Store) : SOp → Store × Out
   | .delAttrEdge raw t k => delAttrEdge s raw t k
   | .clear => (clear s, .ok)
 
-/-! ## the content as a map, and the pure derivations -/
+/-! ## the content as a map; filters, sorting, windows -/
 
 /-- `(time, nodes) ↦ (weight, metadata)` in creation order -/
 def records (s : Store) : List (Key × (Int × Meta)) :=
   s.edgeList.map (fun p => (p.1, ((AL.get? s.weights p.2).getD one, (AL.get? s.emeta p.2).getD [])))
 
 def edgeKeys (s : Store) : List Key := AL.keys s.edgeList
+
+def metaOfKey (s : Store) (k : Key) : Option Meta := (AL.get? s.edgeList k).bind (AL.get? s.emeta)
+def weightOfKey (s : Store) (k : Key) : Option Int := (AL.get? s.edgeList k).bind (AL.get? s.weights)
 
 /-- order / size / up_to arguments of the getters -/
 structure Filt where
@@ -367,93 +387,15 @@ inductive Win
 /-- `time_window[0] <= _t < time_window[1]` -/
 def inWin (a b : Int) (k : Key) : Bool := a ≤ (k.1 : Int) && (k.1 : Int) < b
 
-/-- `get_edges(time_window)` before the size filter -/
-def window (s : Store) (a b : Int) : List Key := (sortKeys (edgeKeys s)).filter (inWin a b)
-
-/-- `get_edges(time_window, order, size, up_to)`; `none` = the call raises -/
-def getEdges (s : Store) (w : Win) (f : Filt) : Option (List Key) :=
-  if f.order.isSome && f.size.isSome then none else
-  match w with
-  | .bad => none
-  | .none => some (applyFilt f (edgeKeys s))
-  | .pair a b => some (applyFilt f (window s a b))
-
-def metaOfKey (s : Store) (k : Key) : Option Meta := (AL.get? s.edgeList k).bind (AL.get? s.emeta)
-def weightOfKey (s : Store) (k : Key) : Option Int := (AL.get? s.edgeList k).bind (AL.get? s.weights)
-
-def numEdges (s : Store) (f : Filt) : Option Nat :=
-  if f.order.isSome && f.size.isSome then none else some (applyFilt f (edgeKeys s)).length
-
-/-- `get_weights(order, size, up_to, asdict=True)` -/
-def getWeights (s : Store) (f : Filt) : Option (List (Key × Int)) :=
-  if f.order.isSome && f.size.isSome then none else
-  (applyFilt f (edgeKeys s)).mapM (fun k => (weightOfKey s k).map (fun w => (k, w)))
-
-/-- `get_incident_edges(node, order, size)` -/
-def incident (s : Store) (n : Node) (order size : Option Int) : Option (List Key) :=
-  match AL.get? s.adj n with
-  | none => none
-  | some ids =>
-    if order.isSome && size.isSome then none else
-    let ks := ids.filterMap (AL.get? s.rev)
-    match effOrder order size with
-    | none => some ks
-    | some o => some (ks.filter (passes o false))
-
 def dedup (l : List Nat) : List Nat := l.foldl (fun acc x => if acc.contains x then acc else acc ++ [x]) []
-
-/-- `get_neighbors(node, order, size)` (a set: order of the listing is free) -/
-def neighbors (s : Store) (n : Node) (order size : Option Int) : Option (List Node) :=
-  (incident s n order size).map (fun ks => (dedup (ks.flatMap (·.2))).filter (· != n))
-
-def degree (s : Store) (n : Node) (order size : Option Int) : Option Nat :=
-  (incident s n order size).map (·.length)
-
-def nodeList (s : Store) : List Node := AL.keys s.nmeta
-
-/-- `degree_sequence(order, size)` -/
-def degreeSeq (s : Store) (order size : Option Int) : Option (List (Node × Nat)) :=
-  if order.isSome && size.isSome then none else
-  (nodeList s).mapM (fun n => (degree s n (effOrder order size) none).map (fun d => (n, d)))
 
 /-- counting dictionary `d[x] += 1` -/
 def countInto (acc : List (Int × Nat)) (x : Int) : List (Int × Nat) :=
   AL.set acc x (((AL.get? acc x).getD 0) + 1)
 
-def degreeDist (s : Store) (order size : Option Int) : Option (List (Int × Nat)) :=
-  (degreeSeq s order size).map (fun l => l.foldl (fun acc p => countInto acc (p.2 : Int)) [])
-
-def isolated (s : Store) (order size : Option Int) : Option (List Node) :=
-  if order.isSome && size.isSome then none else
-  ((nodeList s).mapM (fun n => (neighbors s n order size).map (fun l => (n, l)))).map
-    (fun l => (l.filter (fun p => p.2.isEmpty)).map (·.1))
-
-def isIsolated (s : Store) (n : Node) (order size : Option Int) : Option Bool :=
-  if order.isSome && size.isSome then none else (neighbors s n order size).map (·.isEmpty)
-
-def sizes (s : Store) : List Nat := (edgeKeys s).map (·.2.length)
-
 def maxNat : List Nat → Option Nat
   | [] => none
   | a :: t => some (t.foldl max a)
-
-/-- `is_uniform` -/
-def uniform (s : Store) : Bool :=
-  match sizes s with
-  | [] => true
-  | a :: t => t.all (· == a)
-
-/-- `get_times_for_edge(edge)` -/
-def timesFor (s : Store) (raw : List Nat) : List Nat :=
-  ((edgeKeys s).filter (fun k => k.2 == canon raw)).map (·.1)
-
-/-- `min_time()`: `none` = `math.inf` -/
-def minTime (s : Store) : Option Nat :=
-  (edgeKeys s).foldl (fun m k => match m with | none => some k.1 | some v => if v > k.1 then some k.1 else some v) none
-
-/-- `max_time()`: `none` = `-math.inf` -/
-def maxTime (s : Store) : Option Nat :=
-  (edgeKeys s).foldl (fun m k => match m with | none => some k.1 | some v => if v < k.1 then some k.1 else some v) none
 
 /-! ## spec-level `Hypergraph` objects returned by `subhypergraph` / `aggregate` -/
 
@@ -461,6 +403,7 @@ structure HSpec where
   weighted : Bool
   nodes : List (Node × Meta) := []
   edges : List (Edge × (Int × Meta)) := []
+  deriving DecidableEq
 
 /-- `Hypergraph.add_node(node, metadata)` -/
 def HSpec.addNode (h : HSpec) (n : Node) (md : Meta) : HSpec :=
@@ -477,26 +420,31 @@ def HSpec.addEdge (h : HSpec) (e : Edge) (w : Int) (md : Meta) : Option HSpec :=
   | none => some (HSpec.touchNodes { h with edges := AL.set h.edges e (if h.weighted then w else one, md) } e)
   | some (w0, _) => some { h with edges := AL.set h.edges e (if h.weighted then w0 + w else w0, md) }
 
-/-- the loop of `subhypergraph` over `get_edges()` -/
-def snapStep (s : Store) (a b : Option Int) (res : List (Nat × HSpec)) (k : Key) : Option (List (Nat × HSpec)) :=
-  let inside := (match a with | none => true | some a => a ≤ (k.1 : Int)) && (match b with | none => true | some b => (k.1 : Int) < b)
-  if inside then
-    let h := (AL.get? res k.1).getD { weighted := s.weighted }
-    match weightOfKey s k with
+/-- `time_window[0] <= t < time_window[1]` with `±inf` as `none` -/
+def insideOpt (a b : Option Int) (t : Nat) : Bool :=
+  (match a with | none => true | some a => a ≤ (t : Int)) && (match b with | none => true | some b => (t : Int) < b)
+
+/-- the loop of `subhypergraph` over `get_edges()`; `wOf` = `get_weight` of a record -/
+def snapStep (weighted : Bool) (wOf : Key → Option Int) (a b : Option Int) (res : List (Nat × HSpec)) (k : Key) :
+    Option (List (Nat × HSpec)) :=
+  if insideOpt a b k.1 then
+    let h := (AL.get? res k.1).getD { weighted := weighted }
+    match wOf k with
     | none => none
     | some w => (h.addEdge k.2 w []).map (fun h' => AL.set res k.1 h')
   else some res
 
-def snapLoop (s : Store) (a b : Option Int) : List (Nat × HSpec) → List Key → Option (List (Nat × HSpec))
+def snapLoop (weighted : Bool) (wOf : Key → Option Int) (a b : Option Int) :
+    List (Nat × HSpec) → List Key → Option (List (Nat × HSpec))
   | res, [] => some res
-  | res, k :: ks => (snapStep s a b res k).bind (fun r => snapLoop s a b r ks)
+  | res, k :: ks => (snapStep weighted wOf a b res k).bind (fun r => snapLoop weighted wOf a b r ks)
 
-/-- `subhypergraph(time_window)`; `none` = raises (window not a tuple) -/
-def snapshots (s : Store) (w : Win) : Option (List (Nat × HSpec)) :=
+/-- `subhypergraph(time_window)` as a function of the record listing and the weight lookup; `none` = raises -/
+def snapshotsOf (weighted : Bool) (wOf : Key → Option Int) (keys : List Key) (w : Win) : Option (List (Nat × HSpec)) :=
   match w with
   | .bad => none
-  | .none => snapLoop s none none [] (edgeKeys s)
-  | .pair a b => snapLoop s (some a) (some b) [] (edgeKeys s)
+  | .none => snapLoop weighted wOf none none [] keys
+  | .pair a b => snapLoop weighted wOf (some a) (some b) [] keys
 
 /-- the inner `while` of `aggregate`: consume records while `t_start <= t < t_end` -/
 def takeWindow (tS tE : Nat) : List Key → List Key × List Key
@@ -505,40 +453,173 @@ def takeWindow (tS tE : Nat) : List Key → List Key × List Key
     if tS ≤ k.1 ∧ k.1 < tE then ((k :: (takeWindow tS tE rest).1), (takeWindow tS tE rest).2)
     else ([], k :: rest)
 
-def addWindowEdges (s : Store) : HSpec → List Key → Option HSpec
+/-- `Hypergraph_t.add_edge(nodes, metadata=get_edge_metadata(..), weight=get_weight(..))` for the records of a window -/
+def addWindowEdges (wOf : Key → Option Int) (mOf : Key → Option Meta) : HSpec → List Key → Option HSpec
   | h, [] => some h
   | h, k :: ks =>
-    match metaOfKey s k, weightOfKey s k with
-    | some md, some w => (h.addEdge k.2 w md).bind (fun h' => addWindowEdges s h' ks)
+    match mOf k, wOf k with
+    | some md, some w => (h.addEdge k.2 w md).bind (fun h' => addWindowEdges wOf mOf h' ks)
     | _, _ => none
 
 /-- the hypergraph of one window: edges in sorted order, then every node with its metadata -/
-def buildWindow (s : Store) (ks : List Key) : Option HSpec :=
-  (addWindowEdges s { weighted := s.weighted } ks).map
-    (fun h => s.nmeta.foldl (fun h p => h.addNode p.1 p.2) h)
+def buildWindow (weighted : Bool) (wOf : Key → Option Int) (mOf : Key → Option Meta) (nmeta : List (Node × Meta))
+    (ks : List Key) : Option HSpec :=
+  (addWindowEdges wOf mOf { weighted := weighted } ks).map
+    (fun h => nmeta.foldl (fun h p => h.addNode p.1 p.2) h)
 
 /-- the outer `while t_start <= max_time` of `aggregate` -/
-def aggLoop (s : Store) (w : Nat) (hw : 0 < w) (maxT : Nat) (tS idx : Nat) (rest : List Key) :
-    Option (List (Nat × HSpec)) :=
+def aggLoop (weighted : Bool) (wOf : Key → Option Int) (mOf : Key → Option Meta) (nmeta : List (Node × Meta))
+    (w : Nat) (hw : 0 < w) (maxT : Nat) (tS idx : Nat) (rest : List Key) : Option (List (Nat × HSpec)) :=
   if h : tS ≤ maxT then
-    match buildWindow s (takeWindow tS (tS + w) rest).1 with
+    match buildWindow weighted wOf mOf nmeta (takeWindow tS (tS + w) rest).1 with
     | none => none
-    | some hg => (aggLoop s w hw maxT (tS + w) (idx + 1) (takeWindow tS (tS + w) rest).2).map (fun tl => (idx, hg) :: tl)
+    | some hg => (aggLoop weighted wOf mOf nmeta w hw maxT (tS + w) (idx + 1) (takeWindow tS (tS + w) rest).2).map
+        (fun tl => (idx, hg) :: tl)
   else some []
 termination_by maxT + 1 - tS
 decreasing_by omega
 
-/-- `aggregate(time_window)`; `none` = raises -/
-def aggregate (s : Store) (w : TimeArg) : Option (List (Nat × HSpec)) :=
+/-- `aggregate(time_window)` as a function of the record listing and the lookups; `none` = raises -/
+def aggregateOf (weighted : Bool) (wOf : Key → Option Int) (mOf : Key → Option Meta) (nmeta : List (Node × Meta))
+    (keys : List Key) (w : TimeArg) : Option (List (Nat × HSpec)) :=
   match w with
   | .bad => none
   | .int i =>
-    if h : 0 < i then
-      let sorted := sortKeys (edgeKeys s)
+    if _h : 0 < i then
+      let sorted := sortKeys keys
       match maxNat (sorted.map (·.1)) with
       | none => some []
-      | some maxT => aggLoop s i.toNat (by omega) maxT 0 0 sorted
+      | some maxT => aggLoop weighted wOf mOf nmeta i.toNat (by omega) maxT 0 0 sorted
     else none
+
+/-! ## views: everything a query reads
+
+A `View` is what the getters of `TemporalHypergraph` read from the object.  Every query is a function of the view
+(`V.*` below); `view s` reads it off a concrete store, `Spec.view` (Model/C03Spec.lean) off the abstract map.
+The refinement theorem says that both views agree on every field except the two that expose edge ids. -/
+
+structure View where
+  weighted : Bool
+  /-- `_node_metadata` -/
+  nodes : List (Node × Meta)
+  /-- keys of `_edge_list` in dict order -/
+  keys : List Key
+  /-- `get_weight` / `get_edge_metadata` of a record (`none`: not a record) -/
+  wOf : Key → Option Int
+  mOf : Key → Option Meta
+  /-- `key in self._edge_list` -/
+  has : Key → Bool
+  /-- `[self._reverse_edge_list[id] for id in self._adj[node]]`; `none`: node not in `_adj` -/
+  inc : Node → Option (List Key)
+  hmeta : Meta
+  /-- `get_all_edges_metadata()` - keyed by edge id -/
+  idMeta : List (Nat × Meta)
+  /-- `__iter__` - `(key, id)` items -/
+  items : List (Key × Nat)
+
+def view (s : Store) : View :=
+  { weighted := s.weighted, nodes := s.nmeta, keys := edgeKeys s, wOf := weightOfKey s, mOf := metaOfKey s,
+    has := fun k => (AL.get? s.edgeList k).isSome,
+    inc := fun n => (AL.get? s.adj n).map (fun ids => ids.filterMap (AL.get? s.rev)),
+    hmeta := s.hmeta, idMeta := s.emeta, items := s.edgeList }
+
+namespace V
+
+/-- `get_edges(time_window, order, size, up_to)`; `none` = the call raises -/
+def getEdges (v : View) (w : Win) (f : Filt) : Option (List Key) :=
+  if f.order.isSome && f.size.isSome then none else
+  match w with
+  | .bad => none
+  | .none => some (applyFilt f v.keys)
+  | .pair a b => some (applyFilt f ((sortKeys v.keys).filter (inWin a b)))
+
+def numEdges (v : View) (f : Filt) : Option Nat :=
+  if f.order.isSome && f.size.isSome then none else some (applyFilt f v.keys).length
+
+/-- `get_weights(order, size, up_to, asdict=True)` -/
+def getWeights (v : View) (f : Filt) : Option (List (Key × Int)) :=
+  if f.order.isSome && f.size.isSome then none else
+  (applyFilt f v.keys).mapM (fun k => (v.wOf k).map (fun w => (k, w)))
+
+/-- `get_incident_edges(node, order, size)` -/
+def incident (v : View) (n : Node) (order size : Option Int) : Option (List Key) :=
+  match v.inc n with
+  | none => none
+  | some ks =>
+    if order.isSome && size.isSome then none else
+    match effOrder order size with
+    | none => some ks
+    | some o => some (ks.filter (passes o false))
+
+/-- `get_neighbors(node, order, size)` (a set: order of the listing is free) -/
+def neighbors (v : View) (n : Node) (order size : Option Int) : Option (List Node) :=
+  (incident v n order size).map (fun ks => (dedup (ks.flatMap (·.2))).filter (· != n))
+
+def degree (v : View) (n : Node) (order size : Option Int) : Option Nat :=
+  (incident v n order size).map (·.length)
+
+def nodeList (v : View) : List Node := AL.keys v.nodes
+
+/-- `degree_sequence(order, size)` -/
+def degreeSeq (v : View) (order size : Option Int) : Option (List (Node × Nat)) :=
+  if order.isSome && size.isSome then none else
+  (nodeList v).mapM (fun n => (degree v n (effOrder order size) none).map (fun d => (n, d)))
+
+def degreeDist (v : View) (order size : Option Int) : Option (List (Int × Nat)) :=
+  (degreeSeq v order size).map (fun l => l.foldl (fun acc p => countInto acc (p.2 : Int)) [])
+
+def isolated (v : View) (order size : Option Int) : Option (List Node) :=
+  if order.isSome && size.isSome then none else
+  ((nodeList v).mapM (fun n => (neighbors v n order size).map (fun l => (n, l)))).map
+    (fun l => (l.filter (fun p => p.2.isEmpty)).map (·.1))
+
+def isIsolated (v : View) (n : Node) (order size : Option Int) : Option Bool :=
+  if order.isSome && size.isSome then none else (neighbors v n order size).map (·.isEmpty)
+
+def sizes (v : View) : List Nat := v.keys.map (·.2.length)
+
+/-- `is_uniform` -/
+def uniform (v : View) : Bool :=
+  match sizes v with
+  | [] => true
+  | a :: t => t.all (· == a)
+
+/-- `get_times_for_edge(edge)` -/
+def timesFor (v : View) (raw : List Nat) : List Nat :=
+  ((v.keys.filter (fun k => k.2 == canon raw)).map (·.1))
+
+/-- `min_time()`: `none` = `math.inf` -/
+def minTime (v : View) : Option Nat :=
+  v.keys.foldl (fun m k => match m with | none => some k.1 | some x => if x > k.1 then some k.1 else some x) none
+
+/-- `max_time()`: `none` = `-math.inf` -/
+def maxTime (v : View) : Option Nat :=
+  v.keys.foldl (fun m k => match m with | none => some k.1 | some x => if x < k.1 then some k.1 else some x) none
+
+def snapshots (v : View) (w : Win) : Option (List (Nat × HSpec)) := snapshotsOf v.weighted v.wOf v.keys w
+
+def aggregate (v : View) (w : TimeArg) : Option (List (Nat × HSpec)) :=
+  aggregateOf v.weighted v.wOf v.mOf v.nodes v.keys w
+
+end V
+
+/-! ## the getters of the concrete store -/
+
+/-- `get_edges(time_window)` before the size filter -/
+def window (s : Store) (a b : Int) : List Key := (sortKeys (edgeKeys s)).filter (inWin a b)
+def getEdges (s : Store) (w : Win) (f : Filt) : Option (List Key) := V.getEdges (view s) w f
+def numEdges (s : Store) (f : Filt) : Option Nat := V.numEdges (view s) f
+def getWeights (s : Store) (f : Filt) : Option (List (Key × Int)) := V.getWeights (view s) f
+def incident (s : Store) (n : Node) (order size : Option Int) : Option (List Key) := V.incident (view s) n order size
+def neighbors (s : Store) (n : Node) (order size : Option Int) : Option (List Node) := V.neighbors (view s) n order size
+def degree (s : Store) (n : Node) (order size : Option Int) : Option Nat := V.degree (view s) n order size
+def timesFor (s : Store) (raw : List Nat) : List Nat := V.timesFor (view s) raw
+def minTime (s : Store) : Option Nat := V.minTime (view s)
+def maxTime (s : Store) : Option Nat := V.maxTime (view s)
+/-- `subhypergraph(time_window)`; `none` = raises (window not a tuple) -/
+def snapshots (s : Store) (w : Win) : Option (List (Nat × HSpec)) := V.snapshots (view s) w
+/-- `aggregate(time_window)`; `none` = raises -/
+def aggregate (s : Store) (w : TimeArg) : Option (List (Nat × HSpec)) := V.aggregate (view s) w
 
 /-! ## queries -/
 
@@ -571,46 +652,51 @@ inductive Ans
   | idMeta (l : List (Nat × Meta))
   | counts (l : List (Int × Nat))
   | hs (l : List (Nat × HSpec))
+  deriving DecidableEq
 
 def optAns {α} (o : Option α) (f : α → Ans) : Ans := match o with | none => .rej | some a => f a
 
-def answer (s : Store) : Query → Ans
-  | .nodes => .nodes (nodeList s)
-  | .nodesMeta => .nodeMeta s.nmeta
-  | .checkNode n => .bool (AL.get? s.adj n).isSome
-  | .numNodes => .int (nodeList s).length
-  | .edges w f false => optAns (getEdges s w f) .recs
-  | .edges w f true => optAns ((getEdges s w f).bind (fun ks => ks.mapM (fun k => (metaOfKey s k).map (fun m => (k, m))))) .recsMeta
-  | .numEdges f => optAns (numEdges s f) (fun n => .int n)
-  | .checkEdge raw t => .bool (idOf s raw t).isSome
-  | .weight raw t => optAns ((idOf s raw t).bind (AL.get? s.weights)) .int
-  | .weights f true => optAns (getWeights s f) .recsW
-  | .weights f false => optAns (getWeights s f) (fun l => .ints (l.map (·.2)))
-  | .incident n o sz => optAns (incident s n o sz) .recs
-  | .neighbors n o sz => optAns (neighbors s n o sz) .nodes
-  | .degree n o sz => optAns (if o.isSome && sz.isSome then none else degree s n o sz) (fun d => .int d)
-  | .degSeq o sz => optAns (degreeSeq s o sz) (fun l => .counts (l.map (fun p => ((p.1 : Int), p.2))))
-  | .degDist o sz => optAns (degreeDist s o sz) .counts
-  | .sizes => .ints ((sizes s).map (fun (n : Nat) => (n : Int)))
-  | .orders => .ints ((sizes s).map (fun (n : Nat) => (n : Int) - 1))
-  | .distSizes => .counts ((sizes s).foldl (fun acc (n : Nat) => countInto acc (n : Int)) [])
-  | .maxSize => optAns (maxNat (sizes s)) (fun n => .int n)
-  | .maxOrder => optAns (maxNat (sizes s)) (fun n => .int ((n : Int) - 1))
-  | .uniform => .bool (uniform s)
-  | .weighted => .bool s.weighted
-  | .nodeMeta n => optAns (AL.get? s.nmeta n) .dict
-  | .edgeMeta raw t => optAns ((idOf s raw t).bind (AL.get? s.emeta)) .dict
-  | .allEdgeMeta => .idMeta s.emeta
-  | .hMeta => .dict s.hmeta
-  | .isolated o sz => optAns (isolated s o sz) .nodes
-  | .isIsolated n o sz => optAns (isIsolated s n o sz) .bool
-  | .len => .int s.edgeList.length
-  | .iter => .recsId s.edgeList
-  | .timesFor raw => .ints ((timesFor s raw).map (fun (n : Nat) => (n : Int)))
-  | .minTime => match minTime s with | none => .inf false | some t => .int t
-  | .maxTime => match maxTime s with | none => .inf true | some t => .int t
-  | .snap w => optAns (snapshots s w) .hs
-  | .agg w => optAns (aggregate s w) .hs
+/-- the answer to a query, as a function of the view -/
+def V.answer (v : View) : Query → Ans
+  | .nodes => .nodes (V.nodeList v)
+  | .nodesMeta => .nodeMeta v.nodes
+  | .checkNode n => .bool (v.inc n).isSome
+  | .numNodes => .int (V.nodeList v).length
+  | .edges w f false => optAns (V.getEdges v w f) .recs
+  | .edges w f true => optAns ((V.getEdges v w f).bind (fun ks => ks.mapM (fun k => (v.mOf k).map (fun m => (k, m))))) .recsMeta
+  | .numEdges f => optAns (V.numEdges v f) (fun n => .int n)
+  | .checkEdge raw t => .bool (match mkKey raw t with | none => false | some k => v.has k)
+  | .weight raw t => optAns ((mkKey raw t).bind v.wOf) .int
+  | .weights f true => optAns (V.getWeights v f) .recsW
+  | .weights f false => optAns (V.getWeights v f) (fun l => .ints (l.map (·.2)))
+  | .incident n o sz => optAns (V.incident v n o sz) .recs
+  | .neighbors n o sz => optAns (V.neighbors v n o sz) .nodes
+  | .degree n o sz => optAns (if o.isSome && sz.isSome then none else V.degree v n o sz) (fun d => .int d)
+  | .degSeq o sz => optAns (V.degreeSeq v o sz) (fun l => .counts (l.map (fun p => ((p.1 : Int), p.2))))
+  | .degDist o sz => optAns (V.degreeDist v o sz) .counts
+  | .sizes => .ints ((V.sizes v).map (fun (n : Nat) => (n : Int)))
+  | .orders => .ints ((V.sizes v).map (fun (n : Nat) => (n : Int) - 1))
+  | .distSizes => .counts ((V.sizes v).foldl (fun acc (n : Nat) => countInto acc (n : Int)) [])
+  | .maxSize => optAns (maxNat (V.sizes v)) (fun n => .int n)
+  | .maxOrder => optAns (maxNat (V.sizes v)) (fun n => .int ((n : Int) - 1))
+  | .uniform => .bool (V.uniform v)
+  | .weighted => .bool v.weighted
+  | .nodeMeta n => optAns (AL.get? v.nodes n) .dict
+  | .edgeMeta raw t => optAns ((mkKey raw t).bind v.mOf) .dict
+  | .allEdgeMeta => .idMeta v.idMeta
+  | .hMeta => .dict v.hmeta
+  | .isolated o sz => optAns (V.isolated v o sz) .nodes
+  | .isIsolated n o sz => optAns (V.isIsolated v n o sz) .bool
+  | .len => .int v.keys.length
+  | .iter => .recsId v.items
+  | .timesFor raw => .ints ((V.timesFor v raw).map (fun (n : Nat) => (n : Int)))
+  | .minTime => match V.minTime v with | none => .inf false | some t => .int t
+  | .maxTime => match V.maxTime v with | none => .inf true | some t => .int t
+  | .snap w => optAns (V.snapshots v w) .hs
+  | .agg w => optAns (V.aggregate v w) .hs
+
+/-- the answer of the concrete store -/
+def answer (s : Store) (q : Query) : Ans := V.answer (view s) q
 
 /-! ## several objects (`copy`) -/
 
@@ -625,6 +711,7 @@ inductive Op
 inductive Res
   | out (o : Out)
   | ans (a : Ans)
+  deriving DecidableEq
 
 def step (st : State) : Op → State × Res
   | .new i w => (AL.set st i (Store.new w), .out .ok)
